@@ -43,6 +43,18 @@ CLAIMED = {
  "C20": ("runtime monitoring: agreement monitors between static views (traversal, list, map, call, type constraint) and evaluation / parsers, both syntaxes",
          "Traversal-shaped texts are analysed statically and the resulting absolute and relative traversals are applied to generated scopes and compared with evaluation, repeatedly and in either order; texts accepted by the stand-alone traversal parser are compared step by step with the expression parser (and with the JSON string view); static list/map/call parts are evaluated one by one and compared with the whole; generated types are rendered with TypeString and parsed back natively and from JSON. Held on the executions observed.",
          "Keyword roots (true/false/null) are excluded from the evaluation comparison (a deviation the specification prescribes).", "DESIGN.md §5 C20"),
+ "C01": ("runtime monitoring: reference-model monitor (independent evaluator written from the specification) plus a model-free layout-invariance relation over the concrete layouts of each generated AST",
+         "Generated ASTs over the whole expression and template grammar are rendered in a canonical and three random layouts (stand-alone, body attribute, bare template; spacing, comments, newlines in brackets, redundant parentheses, quoted / heredoc / flush heredoc, number spellings, escapes), evaluated in two scopes of known values of every cty kind, and compared with refeval (value incl. type, error, or an explicit 'unspecified') and with each other. ~110 directed programs pin rules of the specification on written-out expectations. Held on the executions observed.",
+         "go-cty conversion, unification, number formatting and equality are the value domain (trusted). Unspecified zones (set iteration order, splat sequence kind, short-circuit with an erroneous operand, ill-typed bodies over empty collections, duplicate constructor keys, non-integer modulo, division by zero) are counted, not judged.", "DESIGN.md §5 C01"),
+ "C02": ("runtime monitoring: render-then-parse monitor over abstract body trees read back through Content / PartialContent / JustAttributes",
+         "Abstract body trees with literal attribute values and labels over the full label alphabet are rendered canonically and in three random layouts (comments incl. multi-line inline comments in every header gap, bare/quoted labels with every escape form, one-line and empty blocks, CRLF, BOM, missing final newline) and must parse without errors to exactly the tree; trees with a duplicated attribute name must be rejected in every rendering. Held on the executions observed.",
+         "Expected attribute values are built alongside the AST; labels compared after NFC.", "DESIGN.md §5 C02"),
+ "C03": ("runtime monitoring: cross-syntax differential monitor between the native rendering and six JSON encodings of one abstract configuration under a generated hcldec spec",
+         "Attribute names, block sequences with labels (per type always; in total for order-preserving encodings), hcldec.Decode and PartialDecode values and error-ness of six admissible JSON encodings (object / array roots, duplicate property names, per-type arrays, nested label objects with shared prefixes, arrays of single-property label objects, arrays of bodies, // properties, permutations, whitespace/escapes) are compared with the native reading, for conforming and perturbed configurations, with literal and scope-expression attribute values. Held on the executions observed.",
+         "Label-count mismatches are excluded (the JSON reading is schema-directed). Strings avoid lone CR and leading U+FEFF (known findings of C01/C16).", "DESIGN.md §5 C03"),
+ "C08": ("runtime monitoring: type-conformance and reference-interpreter monitors around hcldec.Decode / PartialDecode for generated spec trees and conforming/perturbed bodies, native and JSON, panic-guarded",
+         "Spec trees are generated for abstract bodies within the documented preconditions of every spec kind; bodies are decoded as written and after one perturbation; the monitor requires a non-panicking result whose type conforms to ImpliedType(spec), an error whenever the independent spec interpreter finds a violation, and value equality with the interpreter otherwise. One adjudicated finding is reported as KNOWN-FINDING. Held on the executions observed.",
+         "cty conversion defines attribute conversion; hcldec.ImpliedType is taken as the statement of the implied type; BlockMapSpec is generated with one label (two-label empty case is the known finding).", "DESIGN.md §5 C08"),
 }
 
 NOT_YET = "monitor designed in DESIGN.md §5 but not yet built in this tree; will be claimed once its check is registered"
